@@ -36,14 +36,29 @@ def leaf(name):
     raise KeyError(name)
 
 
-def build_pipe(desc):
-    """desc: leaf name | ['pipe', d1, d2, ...] (built with the | operator, left-assoc, nested allowed)."""
+_KEPT = {}      # pass / pipeline objects kept by the caller and applied to one circuit after another
+REUSE = {'on': True, 'n': 0}
+
+
+def build_pipe(desc, top=True):
+    """desc: leaf name | ['pipe', d1, d2, ...] (built with the | operator, left-assoc, nested allowed).  Half of the
+    time an object built earlier in this process for the same description is handed out again: passes and pipelines are
+    values a caller builds once and applies to many circuits."""
+    if top and REUSE['on']:
+        key = repr(desc)
+        import random as _r
+        if key in _KEPT and (REUSE.get('always') or _r.random() < 0.5):
+            REUSE['n'] += 1
+            return _KEPT[key]
+        t = build_pipe(desc, top=False)
+        _KEPT[key] = t
+        return t
     if isinstance(desc, str):
         return leaf(desc)
     assert desc[0] == 'pipe'
-    t = build_pipe(desc[1])
+    t = build_pipe(desc[1], top=False)
     for d in desc[2:]:
-        t = t | build_pipe(d)
+        t = t | build_pipe(d, top=False)
     return t
 
 
